@@ -641,3 +641,287 @@ Proof.
   cbn [skip_sp]. rewrite neval_tc, no_empty_paths by assumption.
   destruct ps as [|p r]; [congruence|]. reflexivity.
 Qed.
+
+(* ------------------------------------------------------------------ blocks of lines *)
+Definition bind_line (b : str * str) : str := t_indent ++ fst b ++ t_sep_eq ++ snd b.
+Definition var_line (b : str * str) : str := fst b ++ t_sep_eq ++ snd b.
+Definition bind_rel (a : str * str) (b : str * toks) : Prop :=
+  fst a = fst b /\ name_ok (fst a) = true /\ fst a <> [] /\ lex_value (snd a) = Some (snd b).
+Definition var_rel (a : str * str) (b : str * toks) : Prop :=
+  fst a = fst b /\ file_var_ok (fst a) = true /\ lex_value (snd a) = Some (snd b).
+
+Lemma run_rule_binds m n kt : forall kts bs0,
+  Forall2 bind_rel kt kts -> Forall (fun b => is_rule_var (fst b) = true) kt ->
+  run_lines (mkPs m (BRule n bs0)) (map bind_line kt) = Some (mkPs m (BRule n (bs0 ++ kts))).
+Proof.
+  induction kt as [|[k text] kt IH]; intros kts bs0 H2 Hr; inversion H2 as [|? [k' ts] ? kts' R H2']; subst.
+  - cbn. now rewrite app_nil_r.
+  - destruct R as [E [Hok [Hne Hl]]]. cbn [fst snd] in *. subst k'. inversion Hr as [|? ? Hr1 Hr2]; subst.
+    cbn [map run_lines]. unfold bind_line at 1. cbn [fst snd].
+    rewrite (parse_line_rule_bind m n bs0 k text ts Hok Hne Hr1 Hl). cbv iota beta.
+        specialize (IH kts' (bs0 ++ [(k, ts)]) H2' Hr2). rewrite <- app_assoc in IH. exact IH.
+Qed.
+
+Lemma run_edge_binds m re kt : forall kts bs0,
+  Forall2 bind_rel kt kts ->
+  run_lines (mkPs m (BEdge re bs0)) (map bind_line kt) = Some (mkPs m (BEdge re (bs0 ++ kts))).
+Proof.
+  induction kt as [|[k text] kt IH]; intros kts bs0 H2; inversion H2 as [|? [k' ts] ? kts' R H2']; subst.
+  - cbn. now rewrite app_nil_r.
+  - destruct R as [E [Hok [Hne Hl]]]. cbn [fst snd] in *. subst k'.
+    cbn [map run_lines]. unfold bind_line at 1. cbn [fst snd].
+    rewrite (parse_line_edge_bind m re bs0 k text ts Hok Hne Hl). cbv iota beta.
+    specialize (IH kts' (bs0 ++ [(k, ts)]) H2'). rewrite <- app_assoc in IH. exact IH.
+Qed.
+
+Definition add_rule (m : manifest) (r : rule) : manifest :=
+  mkManifest (m_vars m) (m_rules m ++ [r]) (m_edges m) (m_defaults m).
+Definition add_edge (m : manifest) (e : edge) : manifest :=
+  mkManifest (m_vars m) (m_rules m) (m_edges m ++ [e]) (m_defaults m).
+Definition add_var (m : manifest) (b : str * toks) : manifest :=
+  mkManifest (m_vars m ++ [(fst b, neval (file_env (m_vars m)) (snd b))]) (m_rules m) (m_edges m) (m_defaults m).
+
+Lemma run_rule_block st m n kt kts :
+  close_block (ps_m st) (ps_blk st) = Some m -> rule_name_ok n = true -> rule_known m n = false ->
+  Forall2 bind_rel kt kts -> Forall (fun b => is_rule_var (fst b) = true) kt -> has_key s_command kts = true ->
+  run_lines st ((t_kw_rule ++ n) :: map bind_line kt ++ [[]]) = Some (mkPs (add_rule m (mkRule n kts)) BNone).
+Proof.
+  intros Hc Hn Hk H2 Hr Hcmd. cbn [run_lines]. rewrite (parse_line_rule st m n Hc Hn Hk). cbv iota beta.
+  rewrite run_lines_app, (run_rule_binds m n kt kts [] H2 Hr). cbn [run_lines app].
+  rewrite parse_line_blank. cbn [ps_m ps_blk close_block]. now rewrite Hcmd.
+Qed.
+
+Definition edge_of (m : manifest) (outs : list str) (rule : str) (ins imp oo : list str) (kts : list (str * toks)) : edge :=
+  mkEdge outs rule ins imp oo (eval_edge_bindings (file_env (m_vars m)) [] kts) kts.
+
+Lemma run_edge_block st m outs rule ins imp oo kt kts :
+  close_block (ps_m st) (ps_blk st) = Some m ->
+  all_paths_ok outs -> outs <> [] -> all_paths_ok ins -> all_paths_ok imp -> all_paths_ok oo ->
+  rule_name_ok rule = true -> rule_known m rule = true -> Forall2 bind_rel kt kts ->
+  run_lines st ((t_kw_build ++ build_text outs rule ins imp oo) :: map bind_line kt ++ [[]]) =
+  Some (mkPs (add_edge m (edge_of m outs rule ins imp oo kts)) BNone).
+Proof.
+  intros Hc Ho Hne Hi Hm Hoo Hr Hk H2. cbn [run_lines].
+  rewrite (parse_line_build st m outs rule ins imp oo Hc Ho Hne Hi Hm Hoo Hr Hk). cbv iota beta.
+  rewrite run_lines_app, (run_edge_binds m _ kt kts [] H2). cbn [run_lines app].
+  rewrite parse_line_blank. cbn [ps_m ps_blk]. rewrite close_edge by assumption. reflexivity.
+Qed.
+
+Lemma run_vars kt : forall kts st m,
+  close_block (ps_m st) (ps_blk st) = Some m -> Forall2 var_rel kt kts ->
+  run_lines st (map var_line kt ++ [[]]) = Some (mkPs (fold_left add_var kts m) BNone).
+Proof.
+  induction kt as [|[k text] kt IH]; intros kts st m Hc H2; inversion H2 as [|? [k' ts] ? kts' R H2']; subst.
+  - cbn [map app run_lines]. rewrite parse_line_blank, Hc. reflexivity.
+  - destruct R as [E [Hok Hl]]. cbn [fst snd] in *. subst k'.
+    cbn [map app run_lines]. unfold var_line at 1. cbn [fst snd].
+    rewrite (parse_line_var st m k text ts Hc Hok Hl). cbv iota beta.
+    apply (IH kts' (mkPs (add_var m (k, ts)) BNone) (add_var m (k, ts))); [reflexivity|assumption].
+Qed.
+
+(* comment header *)
+Lemma run_header st bfg : run_lines st [t_hdr1; t_hdr2; t_hdr3 ++ bfg] = Some st.
+Proof. cbn [run_lines]. now rewrite !parse_line_comment by reflexivity. Qed.
+
+(* ------------------------------------------------------------------ no newline inside written lines *)
+Lemma has_nl_path_esc p : has_nl (nj_path_esc p) = has_nl p.
+Proof.
+  unfold has_nl, mem_char. induction p as [|c p IH]; [reflexivity|]. cbn [nj_path_esc].
+  destruct (N.eqb c c_colon || N.eqb c c_dollar || N.eqb c c_sp); cbn [existsb]; now rewrite IH.
+Qed.
+
+Lemma has_nl_jpaths ps : all_paths_ok ps -> has_nl (jpaths ps) = false.
+Proof.
+  induction 1 as [|p ps Hp _ IH]; [reflexivity|]. destruct ps as [|q r].
+  - unfold jpaths. cbn [map join_sp]. now rewrite has_nl_path_esc, path_ok_no_nl.
+  - rewrite jpaths_cons2. change (c_sp :: jpaths (q :: r)) with ([c_sp] ++ jpaths (q :: r)).
+    now rewrite !has_nl_app, has_nl_path_esc, path_ok_no_nl, IH.
+Qed.
+
+Lemma has_nl_pre prefix ps : has_nl prefix = false -> all_paths_ok ps -> has_nl (pre_text prefix ps) = false.
+Proof. intros Hx Hp. destruct ps; [reflexivity|]. unfold pre_text. now rewrite has_nl_app, Hx, has_nl_jpaths. Qed.
+
+Lemma has_nl_build_text outs rule ins imp oo :
+  all_paths_ok outs -> all_paths_ok ins -> all_paths_ok imp -> all_paths_ok oo -> name_ok rule = true ->
+  has_nl (t_kw_build ++ build_text outs rule ins imp oo) = false.
+Proof.
+  intros Ho Hi Hm Hoo Hr. unfold build_text, sec_in, sec_imp, sec_oo.
+  rewrite !has_nl_app, has_nl_jpaths, (name_ok_no_nl rule Hr), !has_nl_pre by (assumption || reflexivity). reflexivity.
+Qed.
+
+Lemma has_nl_bind_line k text : name_ok k = true -> has_nl text = false -> has_nl (bind_line (k, text)) = false.
+Proof. intros Hk Ht. unfold bind_line. cbn [fst snd]. now rewrite !has_nl_app, (name_ok_no_nl k Hk), Ht. Qed.
+
+Lemma has_nl_var_line k text : name_ok k = true -> has_nl text = false -> has_nl (var_line (k, text)) = false.
+Proof. intros Hk Ht. unfold var_line. cbn [fst snd]. now rewrite !has_nl_app, (name_ok_no_nl k Hk), Ht. Qed.
+
+(* parsing the text of a list of newline-free lines *)
+Lemma parse_unlines ls : Forall (fun l => has_nl l = false) ls ->
+  parse_manifest (unlines ls) =
+  match run_lines (mkPs empty_manifest BNone) ls with
+  | Some st => close_block (ps_m st) (ps_blk st)
+  | None => None
+  end.
+Proof.
+  intros H. unfold parse_manifest. rewrite split_unlines by assumption. rewrite parse_lines_app.
+  destruct (run_lines (mkPs empty_manifest BNone) ls) as [st|]; [|reflexivity].
+  cbn [parse_lines]. rewrite parse_line_blank. destruct (close_block (ps_m st) (ps_blk st)); reflexivity.
+Qed.
+
+(* ------------------------------------------------------------------ from the W model's lines to blocks *)
+Lemma opt_all_cons_inv {T} (x : option T) r l :
+  opt_all (x :: r) = Some l -> exists a b, x = Some a /\ opt_all r = Some b /\ l = a :: b.
+Proof.
+  cbn [opt_all]. destruct x as [a|]; [|discriminate]. destruct (opt_all r) as [b|]; [|discriminate].
+  cbn. intros H. inversion H. now exists a, b.
+Qed.
+
+Lemma opt_all_app_inv {T} (a b : list (option T)) : forall l,
+  opt_all (a ++ b) = Some l -> exists la lb, opt_all a = Some la /\ opt_all b = Some lb /\ l = la ++ lb.
+Proof.
+  induction a as [|x a IH]; intros l H.
+  - exists [], l. cbn in *. auto.
+  - cbn [app] in H. apply opt_all_cons_inv in H as [y [r [-> [Hr ->]]]].
+    destruct (IH r Hr) as [la [lb [Ha [Hb ->]]]]. exists (y :: la), lb. cbn [opt_all]. rewrite Ha. auto.
+Qed.
+
+Lemma opt_concat_cons_inv {T} (x : option (list T)) r l :
+  opt_concat (x :: r) = Some l -> exists a b, x = Some a /\ opt_concat r = Some b /\ l = a ++ b.
+Proof.
+  cbn [opt_concat]. unfold opt_app. destruct x as [a|]; [|discriminate]. destruct (opt_concat r) as [b|]; [|discriminate].
+  intros H. inversion H. now exists a, b.
+Qed.
+
+Definition wbind_ok (b : str * items * nsyntax) : Prop :=
+  items_ok (snd (fst b)) /\ val_syn (snd b) = true /\ name_ok (fst (fst b)) = true /\ fst (fst b) <> [].
+Definition wvar_ok (p : str * items) : Prop := items_ok (snd p) /\ file_var_ok (fst p) = true.
+
+Section Written.
+Variable uw : char -> bool.
+
+Definition bind_link (b : str * items * nsyntax) (a : str * str) : Prop :=
+  fst a = fst (fst b) /\ nwrite_each uw (snd (fst b)) (snd b) = Some (snd a).
+Definition var_link (syn : nsyntax) (p : str * items) (a : str * str) : Prop :=
+  fst a = fst p /\ nwrite_each uw (snd p) syn = Some (snd a).
+
+Notation no_nl_lines ls := (Forall (fun l => has_nl l = false) ls).
+
+Lemma binds_written bl : forall ls,
+  opt_all (map (w_bind uw) bl) = Some ls -> Forall wbind_ok bl ->
+  exists kt kts, ls = map bind_line kt /\ Forall2 bind_rel kt kts /\ Forall2 bind_link bl kt /\ no_nl_lines ls.
+Proof.
+  induction bl as [|[[k its] syn] bl IH]; intros ls H Hok.
+  - cbn in H. inversion H. exists [], []. repeat split; constructor.
+  - cbn [map] in H. apply opt_all_cons_inv in H as [line [rest [Hl [Hr ->]]]].
+    inversion Hok as [|? ? [Hi [Hs [Hk Hne]]] Hok']; subst. cbn [fst snd] in *.
+    destruct (IH rest Hr Hok') as [kt [kts [-> [R [Lk Nl]]]]].
+    unfold w_bind, w_variable in Hl. cbn [fst snd] in Hl.
+    destruct (nwrite_each uw its syn) as [t|] eqn:E; [|discriminate]. cbn [option_map] in Hl. inversion Hl; subst line.
+    destruct (nwrite_each_lexes uw its syn Hi Hs t E) as [toks L].
+    destruct (lexes_lex_value_ex t toks L) as [ts Hts].
+    exists ((k, t) :: kt), ((k, ts) :: kts). split; [reflexivity|]. split; [|split].
+    + constructor; [|assumption]. repeat split; assumption.
+    + constructor; [|assumption]. split; [reflexivity|exact E].
+    + constructor; [|assumption]. apply (has_nl_bind_line k t Hk (proj1 L)).
+Qed.
+
+Lemma vars_written syn vars : val_syn syn = true -> forall ls,
+  opt_all (map (fun p => w_variable uw false (fst p) (snd p) syn) vars) = Some ls -> Forall wvar_ok vars ->
+  exists kt kts, ls = map var_line kt /\ Forall2 var_rel kt kts /\ Forall2 (var_link syn) vars kt /\ no_nl_lines ls.
+Proof.
+  intros Hs. induction vars as [|[k its] vars IH]; intros ls H Hok.
+  - cbn in H. inversion H. exists [], []. repeat split; constructor.
+  - cbn [map] in H. apply opt_all_cons_inv in H as [line [rest [Hl [Hr ->]]]].
+    inversion Hok as [|? ? [Hi Hk] Hok']; subst. cbn [fst snd] in *.
+    destruct (IH rest Hr Hok') as [kt [kts [-> [R [Lk Nl]]]]].
+    unfold w_variable in Hl.
+    destruct (nwrite_each uw its syn) as [t|] eqn:E; [|discriminate]. cbn [option_map app] in Hl. inversion Hl; subst line.
+    destruct (nwrite_each_lexes uw its syn Hi Hs t E) as [toks L].
+    destruct (lexes_lex_value_ex t toks L) as [ts Hts].
+    destruct (file_var_ok_inv k Hk) as [Hkok _].
+    exists ((k, t) :: kt), ((k, ts) :: kts). split; [reflexivity|]. split; [|split].
+    + constructor; [|assumption]. repeat split; assumption.
+    + constructor; [|assumption]. split; [reflexivity|exact E].
+    + constructor; [|assumption]. apply (has_nl_var_line k t Hkok (proj1 L)).
+Qed.
+
+(* one Section of NinjaFile.write *)
+Lemma section_written syn vars ls : val_syn syn = true -> w_section uw vars syn = Some ls -> Forall wvar_ok vars ->
+  (vars = [] /\ ls = []) \/
+  exists kt kts, ls = map var_line kt ++ [[]] /\ Forall2 var_rel kt kts /\ Forall2 (var_link syn) vars kt /\ no_nl_lines ls.
+Proof.
+  intros Hs H Hok. destruct vars as [|v vars]; [left; cbn in H; inversion H; auto|]. right.
+  unfold w_section in H. apply opt_all_app_inv in H as [la [lb [Ha [Hb ->]]]].
+  cbn in Hb. inversion Hb; subst lb.
+  destruct (vars_written syn (v :: vars) Hs la Ha Hok) as [kt [kts [-> [R [Lk Nl]]]]].
+  exists kt, kts. repeat split; try assumption. apply Forall_app. split; [assumption|]. constructor; [reflexivity|constructor].
+Qed.
+
+Definition wrule_ok (r : wrule) : Prop :=
+  rule_name_ok (wr_name r) = true /\ items_ok (wr_command r) /\
+  (forall v, wr_depfile r = Some v -> items_ok v) /\ (forall v, wr_deps r = Some v -> items_ok v) /\
+  (forall v, wr_description r = Some v -> items_ok v) /\ (forall v, wr_pool r = Some v -> items_ok v).
+
+Lemma optb_ok k o syn : name_ok k = true -> k <> [] -> val_syn syn = true -> (forall v, o = Some v -> items_ok v) ->
+  Forall wbind_ok (optb k o syn).
+Proof. intros Hk Hne Hs H. destruct o as [v|]; [|constructor]. constructor; [|constructor]. repeat split; auto. Qed.
+
+Lemma flagb_ok k b : name_ok k = true -> k <> [] -> Forall wbind_ok (flagb k b).
+Proof.
+  intros Hk Hne. destruct b; [|constructor]. constructor; [|constructor]. repeat split; auto.
+  constructor; [|constructor]. constructor; [|constructor]. constructor.
+Qed.
+
+Lemma rule_bindings_ok r : wrule_ok r -> Forall wbind_ok (rule_bindings r) /\
+  Forall (fun b => is_rule_var (fst (fst b)) = true) (rule_bindings r).
+Proof.
+  intros [Hn [Hc [Hd [Hp [Hs Hpl]]]]]. unfold rule_bindings. split.
+  - repeat (apply Forall_app; split); try (apply optb_ok; (reflexivity || discriminate || assumption));
+      try (apply flagb_ok; (reflexivity || discriminate)).
+    constructor; [|constructor]. repeat split; try assumption; try reflexivity; discriminate.
+  - destruct (wr_depfile r), (wr_deps r), (wr_description r), (wr_generator r), (wr_pool r), (wr_restat r);
+      cbn [optb flagb app]; repeat constructor.
+Qed.
+
+Lemma rule_written r ls : w_rule uw r = Some ls -> wrule_ok r ->
+  exists kt kts, ls = (t_kw_rule ++ wr_name r) :: map bind_line kt ++ [[]] /\ Forall2 bind_rel kt kts /\
+                 Forall2 bind_link (rule_bindings r) kt /\ no_nl_lines ls /\
+                 Forall (fun b => is_rule_var (fst b) = true) kt.
+Proof.
+  intros H Hok. destruct (rule_bindings_ok r Hok) as [Hb Hrv]. unfold w_rule in H.
+  apply opt_all_cons_inv in H as [l0 [rest [H0 [Hr ->]]]]. inversion H0; subst l0.
+  apply opt_all_app_inv in Hr as [la [lb [Ha [Hlb ->]]]]. cbn in Hlb. inversion Hlb; subst lb.
+  destruct (binds_written (rule_bindings r) la Ha Hb) as [kt [kts [-> [R [Lk Nl]]]]].
+  exists kt, kts. split; [reflexivity|]. split; [assumption|]. split; [assumption|]. split.
+  - constructor.
+    + destruct Hok as [Hn _]. unfold rule_name_ok in Hn. apply andb_true_iff in Hn as [Hn _].
+      change (has_nl (t_kw_rule ++ wr_name r) = false). now rewrite has_nl_app, (name_ok_no_nl _ Hn).
+    + apply Forall_app. split; [assumption|]. constructor; [reflexivity|constructor].
+  - clear - Lk Hrv. induction Lk as [|b a bl kt [E _] _ IH]; [constructor|].
+    inversion Hrv; subst. constructor; [now rewrite E|auto].
+Qed.
+
+(* an edge whose paths are plain strings *)
+Definition wbuild_ok (outs ins imp oo : list str) (rule : str) (vars : list (str * items)) : Prop :=
+  all_paths_ok outs /\ outs <> [] /\ all_paths_ok ins /\ all_paths_ok imp /\ all_paths_ok oo /\
+  rule_name_ok rule = true /\ Forall (fun p => items_ok (snd p) /\ name_ok (fst p) = true /\ fst p <> []) vars.
+
+Lemma build_written outs rule ins imp oo vars ls :
+  w_build uw (mkWBuild (path_items outs) rule (path_items ins) (path_items imp) (path_items oo) vars) = Some ls ->
+  wbuild_ok outs ins imp oo rule vars ->
+  exists kt kts, ls = (t_kw_build ++ build_text outs rule ins imp oo) :: map bind_line kt ++ [[]] /\
+                 Forall2 bind_rel kt kts /\ Forall2 bind_link (map build_binding vars) kt /\ no_nl_lines ls.
+Proof.
+  intros H [Ho [Hne [Hi [Hm [Hoo [Hr Hv]]]]]]. unfold w_build in H. cbn [wb_vars] in H.
+  rewrite w_build_line_paths in H by assumption.
+  apply opt_all_cons_inv in H as [l0 [rest [H0 [Hrest ->]]]]. inversion H0; subst l0.
+  apply opt_all_app_inv in Hrest as [la [lb [Ha [Hlb ->]]]]. cbn in Hlb. inversion Hlb; subst lb.
+  assert (Hb : Forall wbind_ok (map build_binding vars)).
+  { clear - Hv. induction Hv as [|[k its] vars [Hi [Hk Hne]] _ IH]; [constructor|]. cbn [map]. constructor; [|assumption].
+    unfold build_binding. cbn [fst snd]. repeat split; try assumption. now destruct (str_eqb k t_description). }
+  destruct (binds_written _ la Ha Hb) as [kt [kts [-> [R [Lk Nl]]]]].
+  exists kt, kts. repeat split; try assumption. constructor.
+  - unfold rule_name_ok in Hr. apply andb_true_iff in Hr as [Hr _]. now apply has_nl_build_text.
+  - apply Forall_app. split; [assumption|]. constructor; [reflexivity|constructor].
+Qed.
+End Written.
